@@ -203,3 +203,111 @@ theorem sliceFields_trim : ∀ (c : Fields) (kvs : List (String × Value)), Trim
 end
 
 end Cedar.Manifest
+
+namespace Cedar.Manifest
+open Cedar
+
+/-! ## monotonicity of slicing in the trie -/
+
+theorem mem_sliceFields : ∀ (c : Fields) (kvs : List (String × Value)) (k : String) (w' : Value),
+    (k, w') ∈ sliceFields c kvs → ∃ t v, (k, t) ∈ c ∧ lookupKV kvs k = some v ∧ w' = sliceVal t v
+  | [], _, _, _, h => by simp [sliceFields] at h
+  | (f, t) :: rest, kvs, k, w', h => by
+    unfold sliceFields at h
+    cases hv : lookupKV kvs f with
+    | none =>
+      simp only [hv] at h
+      obtain ⟨t', v, h1, h2, h3⟩ := mem_sliceFields rest kvs k w' h
+      exact ⟨t', v, by simp [h1], h2, h3⟩
+    | some v =>
+      simp only [hv] at h
+      rcases mem_insertKV f (sliceVal t v) _ _ h with h | h
+      · cases h
+        exact ⟨t, v, by simp, hv, rfl⟩
+      · obtain ⟨t', v', h1, h2, h3⟩ := mem_sliceFields rest kvs k w' h
+        exact ⟨t', v', by simp [h1], h2, h3⟩
+
+mutual
+/-- a larger trie keeps more of a value -/
+theorem sliceVal_mono : ∀ (t1 t2 : AccessTrie) (v : Value), AccessTrie.le t1 t2 → Trim (sliceVal t1 v) (sliceVal t2 v)
+  | .mk c1 a1 i1 e1, .mk c2 a2 i2 e2, v, hle => by
+    simp only [AccessTrie.le, AccessTrie.children] at hle
+    cases v with
+    | record kvs =>
+      simp only [sliceVal, Trim]
+      exact ⟨_, rfl, trimKVs_of_lookup _ _ (sliceFields_mono c1 c2 kvs hle.1)⟩
+    | prim p => simp [sliceVal, Trim]
+    | set s => simp [sliceVal, Trim]
+    | ext x => simp [sliceVal, Trim]
+theorem sliceFields_mono : ∀ (c1 c2 : Fields) (kvs : List (String × Value)), fieldsLe c1 c2 →
+    ∀ k w', (k, w') ∈ sliceFields c1 kvs → ∃ w, lookupKV (sliceFields c2 kvs) k = some w ∧ Trim w' w
+  | [], _, _, _, _, _, h => by simp [sliceFields] at h
+  | (f, t) :: rest, c2, kvs, hle, k, w', h => by
+    simp only [fieldsLe] at hle
+    unfold sliceFields at h
+    cases hv : lookupKV kvs f with
+    | none =>
+      simp only [hv] at h
+      exact sliceFields_mono rest c2 kvs hle.2 k w' h
+    | some v =>
+      simp only [hv] at h
+      rcases mem_insertKV f (sliceVal t v) _ _ h with h | h
+      · cases h
+        obtain ⟨t2, h1, h2⟩ := hle.1
+        refine ⟨sliceVal t2 v, ?_, sliceVal_mono t t2 v h2⟩
+        rw [lookup_sliceFields, h1, hv]; rfl
+      · exact sliceFields_mono rest c2 kvs hle.2 k w' h
+end
+
+/-! ## requested paths survive slicing -/
+
+/-- the sub-trie a path of fields leads to -/
+def subtrie : AccessTrie → List String → Option AccessTrie
+  | t, [] => some t
+  | t, f :: fs =>
+    match lookupField t.children f with
+    | some t' => subtrie t' fs
+    | none => none
+
+/-- projecting record fields along a path -/
+def project : Value → List String → Option Value
+  | v, [] => some v
+  | .record kvs, f :: fs =>
+    match lookupKV kvs f with
+    | some w => project w fs
+    | none => none
+  | _, _ :: _ => none
+
+/-- every path the trie lists leads, in the slice, to the slice (by the sub-trie) of what it leads to in the value -/
+theorem project_sliceVal : ∀ (fs : List String) (t t' : AccessTrie) (v : Value), subtrie t fs = some t' →
+    project (sliceVal t v) fs = (project v fs).map (sliceVal t')
+  | [], t, t', v, h => by
+    simp only [subtrie, Option.some.injEq] at h
+    subst h
+    simp [project]
+  | f :: fs, .mk c a i e, t', v, h => by
+    simp only [subtrie, AccessTrie.children] at h
+    cases hl : lookupField c f with
+    | none => simp [hl] at h
+    | some t1 =>
+      simp only [hl] at h
+      cases v with
+      | record kvs =>
+        simp only [sliceVal, project, lookup_sliceFields, hl]
+        cases hk : lookupKV kvs f with
+        | none => simp
+        | some w => simpa using project_sliceVal fs t1 t' w h
+      | prim p => simp [sliceVal, project]
+      | set s => simp [sliceVal, project]
+      | ext x => simp [sliceVal, project]
+
+/-- a leaf value that is not a record is kept unchanged -/
+theorem sliceVal_nonrecord (t : AccessTrie) (v : Value) (h : ∀ kvs, v ≠ .record kvs) : sliceVal t v = v := by
+  obtain ⟨c, a, i, e⟩ := t
+  cases v with
+  | record kvs => exact absurd rfl (h kvs)
+  | prim p => rfl
+  | set s => rfl
+  | ext x => rfl
+
+end Cedar.Manifest
